@@ -20,7 +20,7 @@ POPS = ['path_create_directory', 'path_remove_directory', 'path_unlink_file', 'p
 
 
 def make_jobs(ctx):
-    t = 400 if ctx.quick else 1200
+    t = 900 if ctx.quick else 2400
     us = ['harness_resolve.0:18', 'harness_resolve.1:18', 'harness_resolve.2:18', 'harness_resolve.3:18', 'expect_join.0:18', 'expect_join.1:18', 'expect_join.2:18',
           'harness_pathop.0:20', 'harness_rename.0:20', 'harness_symlink.0:20', 'harness_symlink.1:18', 'setup_listing.0:5', 'setup_listing.1:6']
     jobs = [wasi_job('c14_paths.c', 'resolve', witnesses=['end', 'empty', 'absolute ok', 'relative ok'], unwind=34, unwindset=us, timeout=t)]
